@@ -876,6 +876,283 @@ async fn run_case(c: &Value, progress: Arc<AtomicUsize>, next_op: &mut dyn FnMut
     json!({"obs": obs, "soup": soup, "blocks": blocks})
 }
 
+// ---------------------------------------------------------------------------------------------
+// live mode: the REAL component (`Config::run`: StateMachine::run with its view timer, the
+// proposer loop, the inbound queue of lib.rs) of every node on one manual clock, the harness being
+// the network.  No model counterpart: only the monitors of gen/sim_gen.py look at these runs.
+
+struct LiveNode {
+    rank: usize,
+    engine: Engine,
+    manager: Arc<EngineManager>,
+    out_send: ctx::channel::UnboundedSender<zksync_consensus_bft::ToNetworkMessage>,
+    inbound: Option<sync::prunable_mpsc::Sender<zksync_consensus_bft::FromNetworkMessage>>,
+    stop: Option<tokio::sync::oneshot::Sender<()>>,
+    task: Option<tokio::task::JoinHandle<()>>,
+    _runner: tokio::task::JoinHandle<anyhow::Result<()>>,
+}
+
+struct Live {
+    sh: Arc<Shared>,
+    clock: ctx::ManualClock,
+    nodes: Vec<LiveNode>,
+    /// group id per node (messages pass only inside a group); None = no partition
+    groups: Option<Vec<usize>>,
+    drop_pct: u64,
+    rng: u64,
+    forwarded: usize,
+    dropped: usize,
+    first_block: validator::BlockNumber,
+}
+
+impl Live {
+    fn rand(&mut self) -> u64 {
+        // splitmix64
+        self.rng = self.rng.wrapping_add(0x9E3779B97F4A7C15);
+        let mut z = self.rng;
+        z = (z ^ (z >> 30)).wrapping_mul(0xBF58476D1CE4E5B9);
+        z = (z ^ (z >> 27)).wrapping_mul(0x94D049BB133111EB);
+        z ^ (z >> 31)
+    }
+
+    fn start(&mut self, k: usize) {
+        if self.nodes[k].task.is_some() {
+            return;
+        }
+        let nd = &mut self.nodes[k];
+        let cfg = zksync_consensus_bft::Config::new(
+            self.sh.w.pool[nd.rank].clone(),
+            100,
+            time::Duration::milliseconds(VIEW_TIMEOUT_MS),
+            nd.manager.clone(),
+            validator::EpochNumber(0),
+        )
+        .expect("config");
+        let (in_send, in_recv) = zksync_consensus_bft::create_input_channel();
+        let (stop_send, stop_recv) = tokio::sync::oneshot::channel::<()>();
+        let nctx = ctx::test_root(&self.clock);
+        let out = nd.out_send.clone();
+        nd.inbound = Some(in_send);
+        nd.stop = Some(stop_send);
+        nd.task = Some(tokio::spawn(async move {
+            let _: Result<(), ctx::Error> = zksync_concurrency::scope::run!(&nctx, |ctx, s| async {
+                s.spawn_bg(async {
+                    let _ = cfg.run(ctx, out, in_recv).await;
+                    Ok(())
+                });
+                let _ = ctx.wait(stop_recv).await;
+                Ok(())
+            })
+            .await;
+        }));
+    }
+
+    async fn stop(&mut self, k: usize) {
+        let nd = &mut self.nodes[k];
+        if let Some(s) = nd.stop.take() {
+            let _ = s.send(());
+        }
+        nd.inbound = None;
+        if let Some(t) = nd.task.take() {
+            for _ in 0..2000 {
+                if t.is_finished() {
+                    break;
+                }
+                tokio::task::yield_now().await;
+            }
+        }
+        // what it had sent before it stopped still travels
+    }
+
+    /// forwards everything the nodes have sent; returns the number of messages moved
+    fn forward(&mut self) -> usize {
+        let mut moved = 0;
+        for k in 0..self.nodes.len() {
+            for m in self.nodes[k].engine.take_sent() {
+                moved += 1;
+                for j in 0..self.nodes.len() {
+                    if let Some(g) = &self.groups {
+                        if g[j] != g[k] {
+                            self.dropped += 1;
+                            continue;
+                        }
+                    }
+                    if j != k && self.drop_pct > 0 && self.rand() % 100 < self.drop_pct {
+                        self.dropped += 1;
+                        continue;
+                    }
+                    if let Some(inb) = &self.nodes[j].inbound {
+                        let (ack, _ack_recv) = zksync_concurrency::oneshot::channel();
+                        inb.send(zksync_consensus_bft::FromNetworkMessage { msg: m.clone(), ack });
+                        self.forwarded += 1;
+                    }
+                }
+            }
+        }
+        moved
+    }
+
+    /// lets every task run until nothing moves any more
+    async fn pump(&mut self) {
+        let mut idle = 0;
+        for _ in 0..20000 {
+            for _ in 0..20 {
+                tokio::task::yield_now().await;
+            }
+            if self.forward() > 0 {
+                idle = 0;
+            } else {
+                idle += 1;
+                if idle >= 8 {
+                    break;
+                }
+            }
+        }
+    }
+
+    async fn sync_blocks(&mut self) {
+        loop {
+            let mut progress = false;
+            for k in 0..self.nodes.len() {
+                if self.nodes[k].task.is_none() {
+                    continue;
+                }
+                let next = validator::BlockNumber(self.first_block.0 + self.nodes[k].engine.0.blocks.lock().unwrap().len() as u64);
+                let mut found = None;
+                for (j, nd) in self.nodes.iter().enumerate() {
+                    if j != k {
+                        if let Some(b) = nd.engine.0.blocks.lock().unwrap().iter().find(|b| b.number() == next) {
+                            found = Some(b.clone());
+                            break;
+                        }
+                    }
+                }
+                if let Some(b) = found {
+                    let before = self.nodes[k].engine.0.blocks.lock().unwrap().len();
+                    let mgr = self.nodes[k].manager.clone();
+                    let sctx = ctx::test_root(&self.clock);
+                    let _ = bounded(&self.clock, None, mgr.queue_block(&sctx, b)).await;
+                    for _ in 0..400 {
+                        if self.nodes[k].engine.0.blocks.lock().unwrap().len() > before {
+                            progress = true;
+                            break;
+                        }
+                        tokio::task::yield_now().await;
+                    }
+                }
+            }
+            if !progress {
+                break;
+            }
+        }
+    }
+
+    fn status(&self) -> Value {
+        Value::Array(self.nodes.iter().map(|nd| {
+            let validator::ReplicaState::V2(st) = nd.engine.0.state.lock().unwrap().clone();
+            json!([nd.task.is_some() as i64, nd.engine.0.blocks.lock().unwrap().len(), st.view_number.0.to_string(), self.sh.phase(st.phase)])
+        }).collect())
+    }
+}
+
+async fn run_live(c: &Value, progress: Arc<AtomicUsize>) -> Value {
+    let mut w = World::new(16);
+    let sched = w.schedule(&c["committee"]);
+    let first_block = validator::BlockNumber(u64_of(&c["first_block"]));
+    let genesis = validator::GenesisRaw {
+        chain_id: validator::ChainId(1337),
+        fork_number: validator::ForkNumber(0),
+        protocol_version: validator::ProtocolVersion(2),
+        first_block,
+        validators_schedule: Some(sched.clone()),
+    }
+    .with_hash();
+    w.real_genesis = Some(genesis.hash());
+    let mut payload_ids = HashMap::new();
+    for id in 0..1200 {
+        payload_ids.insert(payload_hash(id), id);
+    }
+    let sh = Arc::new(Shared { w, payload_ids });
+    let clock = ctx::ManualClock::new();
+    let mut nodes = vec![];
+    for rank in usizes(&c["nodes"]) {
+        let nctx = ctx::test_root(&clock);
+        let (out_send, out_recv) = ctx::channel::unbounded();
+        let engine = Engine(Arc::new(EngineInner {
+            genesis: genesis.clone(),
+            persisted: sync::watch::channel(BlockStoreState { first: first_block, last: None }).0,
+            blocks: Mutex::default(),
+            state: Mutex::new(validator::ReplicaState::default()),
+            crash: Mutex::new(None),
+            crashed: Mutex::new(false),
+            out: Mutex::new(out_recv),
+        }));
+        let (manager, runner) = EngineManager::new(&nctx, Box::new(engine.clone()), time::Duration::seconds(100))
+            .await
+            .expect("engine manager");
+        let runner_task = tokio::spawn(async move { runner.run(&nctx).await });
+        nodes.push(LiveNode { rank, engine, manager, out_send, inbound: None, stop: None, task: None, _runner: runner_task });
+    }
+    let mut live = Live {
+        sh: sh.clone(), clock: clock.clone(), nodes, groups: None, drop_pct: 0,
+        rng: c["live_seed"].as_u64().unwrap_or(1), forwarded: 0, dropped: 0, first_block,
+    };
+    for k in 0..live.nodes.len() {
+        live.start(k);
+    }
+    live.pump().await;
+    let mut obs = vec![live.status()];
+    for op in c["script"].as_array().unwrap() {
+        match op["t"].as_str().unwrap() {
+            "cut" => {
+                let mut g = vec![usize::MAX; live.nodes.len()];
+                for (gi, members) in op["groups"].as_array().unwrap().iter().enumerate() {
+                    for k in usizes(members) {
+                        g[k] = gi;
+                    }
+                }
+                // nodes in no group are isolated
+                for (k, x) in g.iter_mut().enumerate() {
+                    if *x == usize::MAX {
+                        *x = 1000 + k;
+                    }
+                }
+                live.groups = Some(g);
+            }
+            "heal" => {
+                live.groups = None;
+                live.drop_pct = 0;
+            }
+            "drop" => live.drop_pct = op["pct"].as_u64().unwrap(),
+            "tick" => {
+                clock.advance(time::Duration::milliseconds(op["ms"].as_i64().unwrap()));
+                live.pump().await;
+            }
+            "stop" => live.stop(op["k"].as_u64().unwrap() as usize).await,
+            "start" => {
+                live.start(op["k"].as_u64().unwrap() as usize);
+                live.pump().await;
+            }
+            "sync" => {
+                live.sync_blocks().await;
+                live.pump().await;
+            }
+            other => panic!("unknown live op {other}"),
+        }
+        obs.push(live.status());
+        progress.fetch_add(1, Ordering::SeqCst);
+    }
+    let blocks = Value::Array(live.nodes.iter().map(|nd| {
+        Value::Array(nd.engine.0.blocks.lock().unwrap().iter().map(|b| match b {
+            validator::Block::FinalV2(b) => json!([b.number().0.to_string(), sh.pid(&b.header().payload)]),
+            _ => json!([b.number().0.to_string(), -2]),
+        }).collect())
+    }).collect());
+    let res = json!({"live": obs, "blocks": blocks, "forwarded": live.forwarded, "dropped": live.dropped});
+    std::mem::forget(live);
+    res
+}
+
 fn main() {
     quiet_panics();
     if std::env::args().any(|a| a == "--interactive") {
@@ -912,10 +1189,14 @@ fn main() {
         let p2 = progress.clone();
         std::thread::spawn(move || {
             let rt = tokio::runtime::Builder::new_current_thread().enable_all().build().unwrap();
-            let mut ops = c["ops"].as_array().cloned().unwrap_or_default().into_iter();
-            let mut next_op = || ops.next();
-            let mut emit = |_: &Value| {};
-            let v = rt.block_on(run_case(&c, p2, &mut next_op, &mut emit));
+            let v = if c.get("script").is_some() {
+                rt.block_on(run_live(&c, p2))
+            } else {
+                let mut ops = c["ops"].as_array().cloned().unwrap_or_default().into_iter();
+                let mut next_op = || ops.next();
+                let mut emit = |_: &Value| {};
+                rt.block_on(run_case(&c, p2, &mut next_op, &mut emit))
+            };
             let _ = tx.send(v);
             // skip destructors of the parked background tasks
             std::mem::forget(rt);
